@@ -19,11 +19,13 @@
      RIn ms            []*schema.Message (the caller's input)
      RModel chunks m   the chat model's output: the chunks it emitted in this mode (what the
                        branch condition reads) and their concatenation (what every other consumer
-                       gets)
+                       gets; None: the chunks cannot be concatenated - whoever tries fails)
      RTools o rs direct  the tools node's output: what it emitted in this mode (one value / the merged
                        sparse frames: what direct_return filters), its position-wise concatenation
                        (what every other consumer gets) + the flag above
      RFinal m          direct_return's output
+     RLate e           direct_return's output stream when the tools node's stream ends with an error
+                       item: the node has returned it (the run ends normally), its reader fails
    The graph state St carries react's state struct, the rest of the model's script (the scripted
    model is a node body with memory) and the observation log of the run. *)
 From Eino Require Import Base.Util Model.Tools Model.Graph Model.React.
@@ -31,9 +33,10 @@ Local Open Scope string_scope.
 
 Inductive rval : Type :=
 | RIn (ms : list msg)
-| RModel (chunks : list chunk) (m : msg)
+| RModel (chunks : list chunk) (m : option msg)
 | RTools (o : tout) (results : res (list tmsg)) (direct : bool)
-| RFinal (m : msg).
+| RFinal (m : msg)
+| RLate (e : N).
 
 Definition kChat : key := 2%N.
 Definition kTools : key := 3%N.
@@ -103,9 +106,11 @@ Section ReactGraph.
     | SFail :: _ => (Err cModel, s1)
     | SMsg content calls chunks :: script' =>
         match delivered md content calls chunks with
-        | None => (Err cConcat, s1)
+        | None =>
+            (Ok (RModel (emitted_chunks md content calls chunks) None),
+             mkRS script' msgs (rs_rd s) (rs_inputs s1) (rs_rounds s) (rs_emits s))
         | Some m =>
-            (Ok (RModel (emitted_chunks md content calls chunks) m),
+            (Ok (RModel (emitted_chunks md content calls chunks) (Some m)),
              mkRS script' msgs (rs_rd s) (rs_inputs s1) (rs_rounds s) (rs_emits s ++ [m]))
         end
     end.
@@ -131,8 +136,8 @@ Section ReactGraph.
         match tout_direct i o with
         | Ok (Some r) => (Ok (RFinal (tool_msg r)), s)
         | Ok None => (Err cNoDirect, s)
-        | Err e => (Err (cToolsBase + e), s)
-        | Panic => (Panic, s)
+        | Err e => (Ok (RLate e), s)
+        | Panic => (Ok (RLate E_PANIC), s)
         end
     | None => (Err cNoDirect, s)
     end.
@@ -149,7 +154,11 @@ Section ReactGraph.
           | _ => (Err cType, s)
           end
         else if N.eqb k kTools then
-          match v with RModel _ m => exec_tools m s | _ => (Err cType, s) end
+          match v with
+          | RModel _ (Some m) => exec_tools m s
+          | RModel _ None => (Err cConcat, s)     (* the node's pre-processing cannot concatenate its input *)
+          | _ => (Err cType, s)
+          end
         else if N.eqb k kDirect then
           match v with RTools o _ _ => exec_direct o s | _ => (Err cType, s) end
         else (Err cType, s)
@@ -172,8 +181,10 @@ Section ReactGraph.
 
   Definition out_of (o : Graph.outcome rval) : option React.outcome :=
     match o with
-    | Done (RModel _ m) _ => Some (Final m)
+    | Done (RModel _ (Some m)) _ => Some (Final m)
+    | Done (RModel _ None) _ => Some (Failed (ELate E_CONCAT))
     | Done (RFinal m) _ => Some (Final m)
+    | Done (RLate e) _ => Some (Failed (ELate e))
     | Done _ _ => None
     | Fail [e] _ => option_map Failed (out_of_err e)
     | Fail _ _ => None
